@@ -500,6 +500,14 @@ func Same(a, b ssa.Value) bool {
 		return ok && x.Op == y.Op && Same(x.X, y.X) && Same(x.Y, y.Y)
 	case *ssa.Call:
 		y, ok := b.(*ssa.Call)
+		if ok && CalleeName(x) == "builtin.len" && CalleeName(y) == "builtin.len" && len(x.Call.Args) == 1 && len(y.Call.Args) == 1 {
+			// the length of one slice or string value never changes (maps and channels do)
+			switch x.Call.Args[0].Type().Underlying().(type) {
+			case *types.Slice, *types.Basic, *types.Array:
+				return Same(x.Call.Args[0], y.Call.Args[0])
+			}
+			return false
+		}
 		if !ok || CalleeName(x) == "" || CalleeName(x) != CalleeName(y) || !PureAccessors[CalleeName(x)] {
 			return false
 		}
